@@ -74,7 +74,7 @@ class Run:
     pass
 
 
-def do_run(cfg, resume_from=None, fail_at=None, budget_s=120, vid0=0, keep_payloads=True):
+def do_run(cfg, resume_from=None, fail_at=None, budget_s=60, vid0=0, keep_payloads=True):
     """Execute one real run; never raises."""
     import emcee
     NS = nsutil.namespaces()
@@ -123,7 +123,7 @@ def do_run(cfg, resume_from=None, fail_at=None, budget_s=120, vid0=0, keep_paylo
     if resume_from is not None:
         sk["resume_from"] = resume_from
     old = signal.signal(signal.SIGALRM, _alarm)
-    signal.alarm(budget_s)
+    signal.setitimer(signal.ITIMER_REAL, budget_s, 0.5)   # re-fires: a handler exception can be swallowed (e.g. inside logging)
     try:
         if kind == "base":
             r.result = sd.base_sample(sampler, N, rng=rng, sampler_kwargs={"n_steps": cfg["mcmc_steps"]}, **sk)
@@ -136,7 +136,7 @@ def do_run(cfg, resume_from=None, fail_at=None, budget_s=120, vid0=0, keep_paylo
     except Exception as e:
         r.error = (type(e).__name__, str(e), traceback.format_exc()[-1500:])
     finally:
-        signal.alarm(0)
+        signal.setitimer(signal.ITIMER_REAL, 0)
         signal.signal(signal.SIGALRM, old)
         rec.uninstall()
     r.events = rec.events
